@@ -487,41 +487,66 @@ func (self *visitorUserNode) OnObjectBegin(capacity int) error {
 
 // MapKey maybe int32/sint32/uint32/uint64 etc....
 func (self *visitorUserNode) encodeMapKey(key string, t proto.Type) error {
+	var err error
 	switch t {
-	case proto.INT32:
-		t, _ := strconv.ParseInt(key, 10, 32)
-		if err := self.p.WriteInt32(int32(t)); err != nil {
-			return err
+	case proto.INT32, proto.SINT32, proto.SFIX32:
+		var v int64
+		if v, err = strconv.ParseInt(key, 10, 32); err != nil {
+			return newError(meta.ErrDismatchType, "invalid int32 map key", err)
 		}
-	case proto.UINT32:
-		t, _ := strconv.ParseInt(key, 10, 32)
-		if err := self.p.WriteUint32(uint32(t)); err != nil {
-			return err
+		switch t {
+		case proto.INT32:
+			err = self.p.WriteInt32(int32(v))
+		case proto.SINT32:
+			err = self.p.WriteSint32(int32(v))
+		default:
+			err = self.p.WriteSfixed32(int32(v))
 		}
-	case proto.UINT64:
-		t, _ := strconv.ParseInt(key, 10, 64)
-		if err := self.p.WriteUint64(uint64(t)); err != nil {
-			return err
+	case proto.UINT32, proto.FIX32:
+		var v uint64
+		if v, err = strconv.ParseUint(key, 10, 32); err != nil {
+			return newError(meta.ErrDismatchType, "invalid uint32 map key", err)
 		}
-	case proto.INT64:
-		t, _ := strconv.ParseInt(key, 10, 64)
-		if err := self.p.WriteInt64(int64(t)); err != nil {
-			return err
+		if t == proto.UINT32 {
+			err = self.p.WriteUint32(uint32(v))
+		} else {
+			err = self.p.WriteFixed32(uint32(v))
+		}
+	case proto.INT64, proto.SINT64, proto.SFIX64:
+		var v int64
+		if v, err = strconv.ParseInt(key, 10, 64); err != nil {
+			return newError(meta.ErrDismatchType, "invalid int64 map key", err)
+		}
+		switch t {
+		case proto.INT64:
+			err = self.p.WriteInt64(v)
+		case proto.SINT64:
+			err = self.p.WriteSint64(v)
+		default:
+			err = self.p.WriteSfixed64(v)
+		}
+	case proto.UINT64, proto.FIX64:
+		var v uint64
+		if v, err = strconv.ParseUint(key, 10, 64); err != nil {
+			return newError(meta.ErrDismatchType, "invalid uint64 map key", err)
+		}
+		if t == proto.UINT64 {
+			err = self.p.WriteUint64(v)
+		} else {
+			err = self.p.WriteFixed64(v)
 		}
 	case proto.BOOL:
-		t, _ := strconv.ParseBool(key)
-		if err := self.p.WriteBool(t); err != nil {
-			return err
+		var v bool
+		if v, err = strconv.ParseBool(key); err != nil {
+			return newError(meta.ErrDismatchType, "invalid bool map key", err)
 		}
+		err = self.p.WriteBool(v)
 	case proto.STRING:
-		if err := self.p.WriteString(key); err != nil {
-			return err
-		}
+		err = self.p.WriteString(key)
 	default:
 		return newError(meta.ErrDismatchType, "invalid mapKeyDescriptor Type", nil)
 	}
-
-	return nil
+	return err
 }
 
 // Start Parsing JSONField, which may correspond to Protobuf MessageField or Protobuf MapKey
